@@ -52,12 +52,8 @@ def Heap.getMap (h : Heap) (a : Nat) : MapObj := h.maps.getD a { items := [], or
 def Heap.setArr (h : Heap) (a : Nat) (items : List Val) : Heap := { h with arrs := h.arrs.set a items }
 def Heap.setMap (h : Heap) (a : Nat) (m : MapObj) : Heap := { h with maps := h.maps.set a m }
 
-/-- insertion sort of strings (byte order = code point order for the UTF-8 strings of the model) -/
-def insertSorted (k : String) : List String → List String
-  | [] => [k]
-  | x :: xs => if k < x then k :: x :: xs else if k == x then x :: xs else x :: insertSorted k xs
-
-def sortKeys (ks : List String) : List String := ks.foldl (fun acc k => insertSorted k acc) []
+/-- sorted keys (Go: sort.Strings / sortKeys; byte order = code point order for the UTF-8 strings of the model) -/
+def sortKeys (ks : List String) : List String := ks.mergeSort (fun a b => decide (a ≤ b))
 
 def assocGet (l : List (String × Val)) (k : String) : Option Val := (l.find? (·.1 == k)).map (·.2)
 
